@@ -6,7 +6,7 @@
 (* verdict of every event is total: a set of failing clause names (empty = *)
 (* accepted) printed as JSON {"V": id, "c": [clauses]}.                              *)
 (***************************************************************************)
-EXTENDS Json, IOUtils, TLC, JSearch, JArrays, JProcess, JRfa, JRfaRel, JMatch, JPipeline
+EXTENDS Json, IOUtils, TLC, JSearch, JArrays, JProcess, JRfa, JRfaRel, JMatch, JPipeline, JWeaver
 
 Trace == JsonDeserialize(IOEnv.TRACE_FILE)
 Chunk == atoi(IOEnv.TRACE_CHUNK)
@@ -47,6 +47,8 @@ Verdict(e) ==
       [] e.fn = "rfa_rel" -> V_rfa_rel(e)
       [] e.fn = "match" -> V_match(e)
       [] e.fn = "pipeline" -> V_pipeline(e)
+      [] e.fn = "whist" -> V_whist(e)
+      [] e.fn = "wrestore" -> V_wrestore(e)
       [] OTHER -> {"machinery.unknown_fn"}
 
 \* one line of JSON per event (TLC pretty-prints long tuples over several lines; a JSON string stays on one)
